@@ -52,14 +52,14 @@ func (c07) Info() core.Info {
 			"pointer_field is 0 (the statement does not quantify over pointer_field for the PAT) and program numbers are distinct",
 			"after an injected reader error ReadPAT may return that error or the exact answer; nothing else is relaxed",
 		},
-		RequiredProbes: []string{"entries_0", "entries_1_program", "entries_1_network", "entries_ge3", "entries_42", "pid_gt_255", "pat_after_foreign", "no_pat", "eof_inside_pat", "one_byte_reads", "second_pat_ignored", "pat_with_af", "caller_scribbles_program_map", "held_pat_rechecked", "af_only_packet_before_pat", "buffer_reused_for_next_pat", "pat_after_70000_packets", "reader_is_a_bufio_reader", "bufio_reader_and_first_packet_pid_4_to_15"},
+		RequiredProbes: []string{"entries_0", "entries_1_program", "entries_1_network", "entries_ge3", "entries_42", "pid_gt_255", "pat_after_foreign", "no_pat", "eof_inside_pat", "one_byte_reads", "second_pat_ignored", "pat_with_af", "caller_scribbles_program_map", "held_pat_rechecked", "af_only_packet_before_pat", "buffer_reused_for_next_pat", "pat_after_70000_packets", "reader_is_a_bufio_reader", "bufio_reader_and_first_packet_pid_4_to_15", "payload_of_192_bytes_with_0x47_at_byte_4"},
 	}
 }
 
 func (c07) Gen(r *core.Rand, tier string) interface{} {
 	s := &C07Script{Salt: r.Intn(1000), AFLen: -1}
 	n := r.Pick(0, 1, 1, 1, 2, 3, 5, 8, 20, 41, 42, r.Range(0, 42))
-	s.PAT.TSID = r.Intn(65536)
+	s.PAT.TSID = r.Pick(r.Intn(65536), r.Intn(65536), r.Intn(65536), 0x4700|r.Intn(256), 0x0047, 0x4747)
 	s.PAT.Version = r.Intn(32)
 	s.PAT.Reserved = r.Pick(7, 7, 0, r.Intn(8))
 	used := map[int]bool{}
@@ -292,7 +292,16 @@ func (c07) Exec(script interface{}, c *core.Ctx) {
 	}
 	var held []heldPAT
 	// carrier 1: payload bytes (exact, and as carried in the packet with stuffing)
-	for _, pl := range [][]byte{payload, patPkt[off:]} {
+	// the payload followed by stuffing up to some other length (188 itself is taken as a whole
+	// packet by NewPAT; 192 is the size of an M2TS source packet, which this is not)
+	padded := append([]byte(nil), payload...)
+	for want := []int{184, 187, 189, 192, 200, 376}[s.Salt%6]; len(padded) < want; {
+		padded = append(padded, 0xFF)
+	}
+	if len(padded) == 192 && len(padded) > 4 && padded[4] == 0x47 {
+		c.Probe("payload_of_192_bytes_with_0x47_at_byte_4")
+	}
+	for _, pl := range [][]byte{payload, patPkt[off:], padded} {
 		var p psi.PAT
 		var err error
 		cpy := append([]byte(nil), pl...)
